@@ -1,8 +1,8 @@
 //go:build verif
 
-// Contracts for package doublylinkedlist (comment-only; read by /verif/engine, never compiled into the package).
+// Contracts for package singlylinkedlist (comment-only; read by /verif/engine, never compiled into the package).
 
-package doublylinkedlist
+package singlylinkedlist
 
 //@ -- ghost state: the sequence of nodes of the list, each node's position and owner (none exists at run time)
 //@ ghost field List.nodes map like first
@@ -12,9 +12,9 @@ package doublylinkedlist
 //@ pred Node(l, i) := l.nodes[i]
 //@ pred Inv(l) := l != nil && l.size >= 0
 //@     && (l.size == 0 ==> l.first == nil && l.last == nil)
-//@     && (l.size > 0 ==> l.first == l.nodes[0] && l.last == l.nodes[l.size - 1] && l.nodes[l.size - 1].next == nil && l.nodes[0].prev == nil)
+//@     && (l.size > 0 ==> l.first == l.nodes[0] && l.last == l.nodes[l.size - 1] && l.nodes[l.size - 1].next == nil)
 //@     && (forall i :: 0 <= i && i < l.size ==> l.nodes[i] != nil && l.nodes[i].idx == i && l.nodes[i].owner == l)
-//@     && (forall i :: 0 <= i && i < l.size - 1 ==> l.nodes[i].next == l.nodes[i+1] && l.nodes[i+1].prev == l.nodes[i])
+//@     && (forall i :: 0 <= i && i < l.size - 1 ==> l.nodes[i].next == l.nodes[i+1])
 //@ -- abstract view: the list content
 //@ pred Seq(l) := mklseq(l.size, \i. l.nodes[i].value)
 //@ pred InRange(l, i) := 0 <= i && i < l.size
@@ -30,7 +30,7 @@ package doublylinkedlist
 //@   at backedge 1: list.nodes[list.size - 1] := newElement
 //@   at backedge 1: newElement.idx := list.size - 1
 //@   at backedge 1: newElement.owner := list
-//@   ensures [C03 C09 C17] Inv(list) && Seq(list) == old(Seq(list)) ++ seq(values)
+//@   ensures [C03 C05 C17] Inv(list) && Seq(list) == old(Seq(list)) ++ seq(values)
 //@   ensures [C09] prefix: forall i :: 0 <= i && i < old(list.size) ==> list.nodes[i] == old(list.nodes[i])
 //@   loop 1:
 //@     invariant Inv(list) && 0 - 1 <= rangeindex && rangeindex < len(values) && list.size == old(list.size) + rangeindex + 1
@@ -50,9 +50,6 @@ package doublylinkedlist
 //@   ensures [C03 C17 C18] InRange(list, index) ==> result1 && result0 == Seq(list)[index]
 //@   ensures [C03 C17 C18] !InRange(list, index) ==> !result1 && result0 == zero(result0)
 //@   loop 1:
-//@     invariant index <= e && e <= list.size - 1 && element == list.nodes[e]
-//@     decreases e - index
-//@   loop 2:
 //@     invariant 0 <= e && e <= index && element == list.nodes[e]
 //@     decreases index - e
 
@@ -94,17 +91,14 @@ package doublylinkedlist
 //@ func List.Remove
 //@   requires Inv(list)
 //@   modifies list.first, list.last, list.size, list.nodes
-//@   modifies each e like list.first where e.owner == list : e.next, e.prev, e.idx
+//@   modifies each e like list.first where e.owner == list : e.next, e.idx
 //@   at exit: if old(InRange(list, index)) && old(list.size) > 1 then list.nodes := \i. ite(i < index, old(list.nodes[i]), old(list.nodes[i+1]))
 //@   at exit: if old(InRange(list, index)) && old(list.size) > 1 then all element.idx := \x like list.first => ite(x.owner == list && index < old(x.idx) && old(x.idx) < old(list.size) && old(list.nodes[x.idx]) == x, old(x.idx) - 1, old(x.idx))
-//@   ensures [C03 C09 C17] Inv(list)
-//@   ensures [C03 C09] removed: old(InRange(list, index)) ==> Seq(list) == old(Seq(list))[:index] ++ old(Seq(list))[index+1:]
-//@   ensures [C03 C09] noop: !old(InRange(list, index)) ==> Seq(list) == old(Seq(list)) && list.size == old(list.size)
+//@   ensures [C03 C05 C17] Inv(list)
+//@   ensures [C03 C05] removed: old(InRange(list, index)) ==> Seq(list) == old(Seq(list))[:index] ++ old(Seq(list))[index+1:]
+//@   ensures [C03 C05] noop: !old(InRange(list, index)) ==> Seq(list) == old(Seq(list)) && list.size == old(list.size)
 //@   loop 1:
-//@     invariant index <= e && e <= list.size - 1 && element == list.nodes[e]
-//@     decreases e - index
-//@   loop 2:
-//@     invariant 0 <= e && e <= index && element == list.nodes[e]
+//@     invariant 0 <= e && e <= index && element == list.nodes[e] && (e > 0 ==> beforeElement == list.nodes[e-1]) && (e == 0 ==> beforeElement == nil)
 //@     decreases index - e
 
 //@ func List.withinRange
@@ -113,12 +107,12 @@ package doublylinkedlist
 //@ func List.Prepend
 //@   requires Inv(list)
 //@   modifies list.first, list.last, list.size, list.nodes
-//@   modifies each e like list.first where e.owner == list : e.prev, e.idx
+//@   modifies each e like list.first where e.owner == list : e.idx
 //@   at backedge 1: all element.idx := \x like list.first => ite(x.owner == list && 0 <= x.idx && x.idx < list.size - 1 && list.nodes[x.idx] == x, x.idx + 1, x.idx)
 //@   at backedge 1: list.nodes := \i. ite(i == 0, newElement, list.nodes[i-1])
 //@   at backedge 1: newElement.idx := 0
 //@   at backedge 1: newElement.owner := list
-//@   ensures [C03 C17] Inv(list) && Seq(list) == seq(values) ++ old(Seq(list))
+//@   ensures [C03 C05 C17] Inv(list) && Seq(list) == seq(values) ++ old(Seq(list))
 //@   loop 1:
 //@     invariant Inv(list) && 0 - 1 <= v && v < len(values) && list.size == old(list.size) + len(values) - 1 - v
 //@     invariant forall i :: 0 <= i && i < old(list.size) ==> list.nodes[len(values) - 1 - v + i] == old(list.nodes[i]) && list.nodes[len(values) - 1 - v + i].value == old(list.nodes[i].value)
@@ -164,9 +158,6 @@ package doublylinkedlist
 //@   ensures [C03] appended: index == old(list.size) ==> Seq(list) == old(Seq(list)) ++ [value]
 //@   ensures [C03] noop: !old(InRange(list, index)) && index != old(list.size) ==> Seq(list) == old(Seq(list))
 //@   loop 1:
-//@     invariant index <= e && e <= list.size - 1 && foundElement == list.nodes[e]
-//@     decreases e - index
-//@   loop 2:
 //@     invariant 0 <= e && e <= index && foundElement == list.nodes[e]
 //@     decreases index - e
 
@@ -184,41 +175,39 @@ package doublylinkedlist
 //@     && (forall k :: 0 <= k && k < list.size ==> Seq(list)[k] == old(Seq(list))[sortperm[k]])
 
 //@ -- old nodes are untouched (used while a new chain is being spliced in)
-//@ pred OldNodesUntouched(l, exceptNext) := forall x like l.first :: !fresh(x) ==> (x != exceptNext ==> x.next == old(x.next)) && x.prev == old(x.prev) && x.value == old(x.value) && x.idx == old(x.idx) && x.owner == old(x.owner)
+//@ pred OldNodesUntouched(l, exceptNext) := forall x like l.first :: !fresh(x) ==> (x != exceptNext ==> x.next == old(x.next)) && x.value == old(x.value) && x.idx == old(x.idx) && x.owner == old(x.owner)
 //@ -- news[0..m] is a freshly allocated, linked chain carrying values[0..m], positioned at base..base+m
 //@ pred NewChain(l, news, m, values, base) := forall k :: 0 <= k && k <= m ==> fresh(news[k]) && news[k] != nil && news[k].value == values[k] && news[k].idx == base + k && news[k].owner == l
-//@     && (k > 0 ==> news[k].prev == news[k-1] && news[k-1].next == news[k])
+//@     && (k > 0 ==> news[k-1].next == news[k])
 
 //@ func List.Insert
 //@   requires Inv(list)
 //@   modifies list.first, list.last, list.size, list.nodes
-//@   modifies each e like list.first where e.owner == list : e.next, e.prev, e.idx
+//@   modifies each e like list.first where e.owner == list : e.next, e.idx
 //@   ghostvar news := refmap(list.first)
+//@   at backedge 2: news := store(news, rangeindex + 1, newElement)
+//@   at backedge 2: newElement.idx := rangeindex + 1
+//@   at backedge 2: newElement.owner := list
 //@   at backedge 3: news := store(news, rangeindex + 1, newElement)
-//@   at backedge 3: newElement.idx := rangeindex + 1
+//@   at backedge 3: newElement.idx := index + rangeindex + 1
 //@   at backedge 3: newElement.owner := list
-//@   at backedge 4: news := store(news, rangeindex + 1, newElement)
-//@   at backedge 4: newElement.idx := index + rangeindex + 1
-//@   at backedge 4: newElement.owner := list
 //@   at exit: if old(InRange(list, index)) then all element.idx := \x like list.first => ite(!fresh(x) && x.owner == list && index <= old(x.idx) && old(x.idx) < old(list.size) && old(list.nodes[x.idx]) == x, old(x.idx) + len(values), x.idx)
 //@   at exit: if old(InRange(list, index)) then list.nodes := \i. ite(i < index, old(list.nodes[i]), ite(i < index + len(values), news[i - index], old(list.nodes[i - len(values)])))
 //@   ensures [C03 C17] Inv(list)
 //@   ensures [C03] spliced: 0 <= index && index <= old(list.size) ==> Seq(list) == old(Seq(list))[:index] ++ seq(values) ++ old(Seq(list))[index:]
 //@   ensures [C03] noop: !(0 <= index && index <= old(list.size)) ==> Seq(list) == old(Seq(list)) && list.size == old(list.size)
 //@   loop 1:
-//@     invariant index <= e && e <= list.size - 1 && index >= 1 && foundElement == list.nodes[e] && beforeElement == list.nodes[e-1]
-//@     decreases e - index
-//@   loop 2:
 //@     invariant 0 <= e && e <= index && foundElement == list.nodes[e] && (e > 0 ==> beforeElement == list.nodes[e-1]) && (e == 0 ==> beforeElement == nil)
+//@     invariant list.size == old(list.size) + len(values) && old(InRange(list, index))
 //@     decreases index - e
-//@   loop 3:
-//@     invariant 0 - 1 <= rangeindex && rangeindex < len(values) && index == 0 && list.size == old(list.size) && list.size > 0 && list.nodes == old(list.nodes) && list.last == old(list.last)
+//@   loop 2:
+//@     invariant 0 - 1 <= rangeindex && rangeindex < len(values) && index == 0 && list.size == old(list.size) + len(values) && old(list.size) > 0 && list.nodes == old(list.nodes) && list.last == old(list.last)
 //@     invariant oldNextElement == old(list.first) && OldNodesUntouched(list, nil) && NewChain(list, news, rangeindex, values, 0)
-//@     invariant (rangeindex >= 0 ==> list.first == news[0] && beforeElement == news[rangeindex] && news[0].prev == nil) && (rangeindex == 0 - 1 ==> list.first == old(list.first) && beforeElement == nil)
+//@     invariant (rangeindex >= 0 ==> list.first == news[0] && beforeElement == news[rangeindex]) && (rangeindex == 0 - 1 ==> list.first == old(list.first) && beforeElement == nil)
 //@     decreases len(values) - rangeindex
-//@   loop 4:
-//@     invariant 0 - 1 <= rangeindex && rangeindex < len(values) && 0 < index && index < list.size && list.size == old(list.size) && list.nodes == old(list.nodes) && list.last == old(list.last) && list.first == old(list.first)
+//@   loop 3:
+//@     invariant 0 - 1 <= rangeindex && rangeindex < len(values) && 0 < index && index < old(list.size) && list.size == old(list.size) + len(values) && list.nodes == old(list.nodes) && list.last == old(list.last) && list.first == old(list.first)
 //@     invariant oldNextElement == old(list.nodes[index]) && OldNodesUntouched(list, old(list.nodes[index-1])) && NewChain(list, news, rangeindex, values, index)
-//@     invariant (rangeindex >= 0 ==> old(list.nodes[index-1]).next == news[0] && news[0].prev == old(list.nodes[index-1]) && beforeElement == news[rangeindex])
+//@     invariant (rangeindex >= 0 ==> old(list.nodes[index-1]).next == news[0] && beforeElement == news[rangeindex])
 //@     invariant (rangeindex == 0 - 1 ==> old(list.nodes[index-1]).next == old(list.nodes[index]) && beforeElement == old(list.nodes[index-1]))
 //@     decreases len(values) - rangeindex
